@@ -24,6 +24,7 @@ import (
 	"time"
 
 	"github.com/martian-lang/martian/martian/core"
+	"github.com/martian-lang/martian/martian/syntax"
 	"github.com/martian-lang/martian/martian/util"
 )
 
@@ -127,7 +128,76 @@ func c13RunOne(c *Ctx, spec *c13TASpec, prepostFile string) *c13TARes {
 	var run *TARun
 	ext := ""
 	hooked := map[string]string{}
-	if spec.Hook != "" {
+	if spec.Hook == "keys" || spec.Hook == "badkeys" {
+		// the stage returns its typed maps under other RUN-TIME KEYS: adversarial relative to the
+		// naming scheme ("keys"), and with one key that is not a legal file name in one map of
+		// directory kind ("badkeys": output verification must refuse it, the stage fails)
+		usedBad := false
+		var rekey func(ty *c13Ty, v interface{}, where string) interface{}
+		rekey = func(ty *c13Ty, v interface{}, where string) interface{} {
+			switch ty.Kind {
+			case "a":
+				if xs, ok := v.([]interface{}); ok {
+					et := ty.Elem
+					if ty.Extra > 0 {
+						et = &c13Ty{Kind: "a", Elem: ty.Elem, Extra: ty.Extra - 1}
+					}
+					for i := range xs {
+						xs[i] = rekey(et, xs[i], where)
+					}
+				}
+			case "t":
+				if m, ok := v.(map[string]interface{}); ok {
+					for _, mm := range ty.Ms {
+						if x, ok := m[mm.Id]; ok {
+							m[mm.Id] = rekey(mm.Ty, x, where+"."+mm.Id)
+						}
+					}
+				}
+			case "m":
+				if m, ok := v.(map[string]interface{}); ok && len(m) > 0 {
+					old := make([]string, 0, len(m))
+					for k := range m {
+						old = append(old, k)
+					}
+					sort.Strings(old)
+					bad := spec.Hook == "badkeys" && !usedBad && ty.hasFile()
+					keys, _ := c13MapKeyNames(rng, ty.Elem, len(m), bad)
+					if bad {
+						usedBad = true
+						hooked[where] = "illegal-key"
+					} else {
+						hooked[where] = "rekeyed"
+					}
+					nm := map[string]interface{}{}
+					for i, k := range keys {
+						if i < len(old) {
+							nm[k] = rekey(ty.Elem, m[old[i]], where)
+						} else if len(old) > 0 {
+							// the extra (illegal) key: a structurally valid entry with nothing to move
+							nm[k] = nil
+						}
+					}
+					return nm
+				}
+			}
+			return v
+		}
+		opts.OutsHook = func(job *TAJob, outs map[string]interface{}) {
+			if job.ShellName == "split" || run == nil || run.Ast == nil {
+				return
+			}
+			st, _ := run.Ast.Callables.Table[job.StageName].(*syntax.Stage)
+			if st == nil {
+				return
+			}
+			for _, p := range c13ParamsFromSyntax(&run.Ast.TypeTable, st.OutParams) {
+				if v, ok := outs[p.Id]; ok {
+					outs[p.Id] = rekey(p.Ty, v, p.Id)
+				}
+			}
+		}
+	} else if spec.Hook != "" {
 		opts.OutsHook = func(job *TAJob, outs map[string]interface{}) {
 			if job.ShellName == "split" {
 				return
@@ -685,6 +755,29 @@ func c13TierA(c *Ctx, r *Result) {
 		spec.Src = c13ReplaceKeys(spec.Src, spec.Keys)
 		specs = append(specs, spec)
 	}
+	// stage outputs with typed maps under adversarial run-time keys ("keys"), and with a key that
+	// is not a legal file name among legal ones ("badkeys")
+	nnames := 30
+	if c.Thorough {
+		nnames = 400
+	}
+	for i := 0; i < nnames; i++ {
+		rng := rand.New(rand.NewSource(c.Rng.Int63()))
+		spec := &c13TASpec{Name: fmt.Sprintf("ta-keynames-%d", i), Seed: rng.Int63(), Hook: "keys"}
+		if i%2 == 1 {
+			spec.Hook = "badkeys"
+			spec.Name += "-bad"
+		}
+		var sig *c13Sig
+		for tries := 0; tries < 200; tries++ {
+			sig = c13GenSig(rng, false)
+			if sig.hasDirMap() && sig.maxLeaves() <= 40 {
+				break
+			}
+		}
+		spec.Src = sig.mroDup("", i%4 >= 2, false)
+		specs = append(specs, spec)
+	}
 	// deterministic sweeps: every simulated crash point of a few programs, and the kill stream at
 	// every entry count of one (quick) or a few (thorough) programs
 	nsim, nkill, capSim, capKill := 3, 1, 37, 25
@@ -765,8 +858,25 @@ func c13CompareAll(c *Ctx, r *Result, specs []*c13TASpec, results []*c13TARes, c
 			}
 			continue
 		}
+		if spec.Hook == "badkeys" && res.Final == "failed" {
+			illegal := false
+			for _, v := range res.Hooked {
+				illegal = illegal || v == "illegal-key"
+			}
+			if illegal {
+				// the correct outcome: output verification refuses the value, the pipestance does not complete
+				r.hist("tierA:illegal-key:refused-by-verification")
+			}
+		}
 		if res.Final != "complete" {
 			continue
+		}
+		if spec.Hook == "badkeys" {
+			for _, v := range res.Hooked {
+				if v == "illegal-key" {
+					r.hist("tierA:illegal-key:pipestance-completed")
+				}
+			}
 		}
 		if spec.Mapped != "" {
 			r.hist("tierA:mapped:" + spec.Mapped)
